@@ -27,6 +27,8 @@ inductive Prim where
   | mask (add : Bool) (sig : Nat)
   /-- `sigaction(sig, d)` -/
   | action (sig : Nat) (d : Disp)
+  /-- `get_sigaction(sig)` (`SignalSystem::get_disposition`; wave 3) -/
+  | get (sig : Nat)
   deriving DecidableEq, Repr
 
 /-- one recorded call: what was asked, whether it succeeded, and (for `sigaction`) the old
@@ -62,6 +64,15 @@ def FSys.sigaction (s : FSys) (sig : Nat) (d : Disp) : Option Disp × FSys :=
      { sys := { s.sys with disp := upd s.sys.disp sig d },
        log := s.log ++ [{ prim := .action sig d, ok := true, old := s.sys.disp sig }],
        plan := s.plan.tail })
+
+/-- `impl SignalSystem for Rc<Concurrent<S>>::get_disposition` = `GetSigaction::get_sigaction`: reads the
+    installed disposition, or fails; changes nothing -/
+def FSys.getDisposition (s : FSys) (sig : Nat) : Option Disp × FSys :=
+  if s.plan.headD false then
+    (none, { s with log := s.log ++ [{ prim := .get sig, ok := false }], plan := s.plan.tail })
+  else
+    (some (s.sys.disp sig),
+     { s with log := s.log ++ [{ prim := .get sig, ok := true, old := s.sys.disp sig }], plan := s.plan.tail })
 
 /-- `impl SignalSystem for Rc<Concurrent<S>>::set_disposition` with its three `?` -/
 def FSys.setDisposition (s : FSys) (sig : Nat) (d : Disp) : Option Disp × FSys :=
@@ -169,10 +180,25 @@ structure FState where
 /-- forgetting the record -/
 def FState.toState (st : FState) : State := { sys := st.sys.sys, traps := st.traps }
 
-/-- `TrapSet::peek_state` (`get_disposition` does not change anything and is not recorded) -/
-def peekStateF (st : FState) (cond : Nat) : FState × TrapState :=
-  let r := peekState st.toState cond
-  ({ st with traps := r.1.traps }, r.2)
+/-- `GrandState::insert_from_system_if_vacant` with its `?` (`none` = `Err`, the entry stays vacant) -/
+def GrandState.insertFromSystemIfVacantF (fs : FSys) (e : Option GrandState) (cond : Nat)
+    : FSys × Option GrandState :=
+  match e with
+  | none =>
+    if cond ≠ 0 then
+      let r := fs.getDisposition cond
+      match r.1 with
+      | none => (r.2, none)
+      | some d => (r.2, some { current := .fromInitial d, parent := none, internal := .default })
+    else (fs, some { current := .fromInitial .default, parent := none, internal := .default })
+  | some g => (fs, some g)
+
+/-- `TrapSet::peek_state` with its `?` (`none` = `Err(errno)`: nothing inserted) -/
+def peekStateF (st : FState) (cond : Nat) : FState × Option TrapState :=
+  let r := GrandState.insertFromSystemIfVacantF st.sys (get st.traps cond) cond
+  match r.2 with
+  | none => ({ st with sys := r.1 }, none)
+  | some g => ({ sys := r.1, traps := set st.traps cond g }, some (g.parent.getD g.current))
 
 /-- `TrapSet::set_action` -/
 def setActionF (st : FState) (cond : Nat) (a : Action) (origin : Nat) (overrideIgnore : Bool)
@@ -263,6 +289,7 @@ def resultF (st : FState) : Op → OpResult
   | .disableTerminators => .ok (seqInternalF st disableTerminatorsOps).2
   | .disableStoppers => .ok (seqInternalF st disableStoppersOps).2
   | .disableAll => .ok (seqInternalF st disableAllOps).2
+  | .peek c => .ok (peekStateF st c).2.isSome
   | _ => .none
 
 /-- a recorded `sigaction` that installed what was installed already -/
@@ -270,10 +297,12 @@ def Call.needless (c : Call) : Bool :=
   match c.prim with
   | .action _ d => c.ok && c.old == d
   | .mask _ _ => false
+  | .get _ => false
 
 def Call.sig (c : Call) : Nat :=
   match c.prim with
   | .action s _ => s
   | .mask _ s => s
+  | .get s => s
 
 end YashModel.Trap
